@@ -275,6 +275,23 @@ def _bind_in_stmt(s, stmt, source, recv):
                     return Binding(s, nm, stmt, "scalar")
                 return Binding(s, [None] * ncols, stmt, "scalar-row:%s" % target.id)
         return None
+    # (a, b) = [conversions](np.array(rows, ...).T): the columns of the row array, in select-list order
+    if isinstance(target, (ast.Tuple, ast.List)) and len(names) == ncols and (fetch is None or fetch.func.attr == "fetchall"):
+        rows_expr0 = fetch if fetch is not None else source
+        v0 = value
+        while isinstance(v0, ast.Call) and v0.args and (dotted_name(v0.func) or "").split(".")[-1] in ("ascontiguousarray", "array", "asarray", "copy", "list", "tuple"):
+            v0 = v0.args[0]
+        tr = None
+        if isinstance(v0, ast.Attribute) and v0.attr == "T":
+            tr = v0.value
+        elif isinstance(v0, ast.Call) and (dotted_name(v0.func) or "").split(".")[-1] == "transpose" and len(v0.args) == 1:
+            tr = v0.args[0]
+        if isinstance(tr, ast.Call) and (dotted_name(tr.func) or "").split(".")[-1] in ("array", "asarray") and tr.args:
+            a0 = tr.args[0]
+            while isinstance(a0, ast.Call) and isinstance(a0.func, ast.Name) and a0.func.id in ("list", "tuple") and len(a0.args) == 1:
+                a0 = a0.args[0]
+            if a0 is rows_expr0:
+                return Binding(s, names, stmt, "columns")
     # a 2-D array of the rows:  M = [wrappers](np.array(rows, ...)) ; later (a, b) = M.T  /  a = M[:, k]
     if isinstance(target, ast.Name) and fetch is not None and fetch.func.attr == "fetchall" or \
             (isinstance(target, ast.Name) and fetch is None and isinstance(source, ast.Name)):
